@@ -3,6 +3,8 @@
 // engine, the bodies are never run.
 package zzvrt
 
+import "math/big"
+
 func Int(name string) int             { return 0 }
 func Int64(name string) int64         { return 0 }
 func Uint64(name string) uint64       { return 0 }
@@ -15,6 +17,9 @@ func String(name string, n int) string {
 	return string(make([]byte, n))
 }
 func Choice(name string, n int) int { return 0 }
+
+// Big returns a symbolic big integer of unbounded magnitude.
+func Big(name string) *big.Int { return new(big.Int) }
 func Assume(c bool)                 {}
 func Assert(c bool, msg string)     {}
 func Reach(tag string)              {}
